@@ -66,6 +66,8 @@ SPEC = {
     'a jit-ted body makes the same draws whenever its module fingerprint is the same (draw counts that depend on '
     'input shapes are outside the model; probe_jit_shape_dependent_draws in the evidence records what the code does)',
     'NNX streams inside nnx.vmap: every lane makes the same calls (counts of a split stream stay uniform)',
+    'A-RNG is an over-approximation for split: in the installed JAX jax.random.split(k, n)[i] does not depend on n (the model term split k shape idx does); '
+    'no theorem concludes a distinctness from different shapes alone, and the no-reuse oracle identifies lanes by index only',
   ],
   'model_partial': [
     'no theorem is named _partial. Scope of the closed-form Linen theorems: linen_key_is_function_of_position / unrelated_edits_inert / '
@@ -1073,37 +1075,69 @@ def check_nnx_case(ctx, drv, case, oracles=True, mouts=None):
     if again != got:
       ctx.violation('nnx-rerun-differs', 'the same Rngs history gave different keys on a second run', case)
       return False
-    # no key is handed out twice between reseeds, across streams with different seeds
-    cur_seed = {s[0]: s[1] for s in seeds}
-    epoch = {s[0]: 0 for s in seeds}
-    seen = {}
-    well_bracketed = _well_bracketed(ops)
-    for op, g in zip(ops, got):
-      if op[0] == 'reseed' and g[0] == 'unit':
-        for name, n in op[1]:
-          if name in cur_seed:
-            cur_seed[name] = n
-            epoch[name] += 1
-      items = []
-      if g[0] == 'key':
-        items = [(g[1], _resolve(streams, op[1]), None)]
-      elif g[0] == 'lanes':
-        for ci, nm in enumerate(op[2]):
-          col = [lane[ci] for lane in g[1]]
-          s = _resolve(streams, nm)
-          if len(set(col)) == 1:
-            items.append((col[0], s, None))  # broadcast stream: every lane sees the same key by design
-          else:
-            items += [(k, s, li) for li, k in enumerate(col)]
-      for k, s, lane in items:
-        tagk = (s, epoch.get(s))
-        if k in seen and well_bracketed:
-          s0, e0, seed0 = seen[k]
-          if seed0 != cur_seed.get(s) or (s0 == s and e0 == epoch.get(s)):
-            ctx.violation('nnx-key-reuse', f'key {k} handed out twice (streams {s0!r}/{s!r}) in a well-bracketed history', case)
-            return False
-          ctx.count('excused_duplicates', 'nnx-same-seed-or-reseeded')
-        seen[k] = (s, epoch.get(s), cur_seed.get(s))
+    # No key is handed out twice, except where the property allows it.  Every draw gets a provenance
+    # (lineage of the stream's *current* key: seed value, or split-of(lineage, count consumed, shape); count; lane) kept by this
+    # oracle's own bookkeeping across reseed (restart), split (new lineage) and restore (old lineage, counter and epoch come
+    # back — also undoing a reseed made while the split was open).  Equal keys are legitimate iff the provenances are equal
+    # and the draws belong to different streams (equal seeds) or to different epochs of one stream (reseeded to the same seed).
+    if _well_bracketed(ops):
+      st = {r[0]: {'lin': ('seed', r[1]), 'count': 0, 'epoch': (r[0], 0), 'shape': None} for r in seeds}
+      n_epoch = [0]
+      stack = []
+      seen = {}
+
+      def draw(name, lane):
+        x = st[name]
+        # identity of the key folded into: the scalar stream key, or lane `lane` of a split (jax.random.split(k, n)[i] does not
+        # depend on n in the installed JAX, so the shape is not part of the identity; a squeezed split is lane 0)
+        ident = x['lin'] if x['shape'] is None else ('lane', x['lin'], lane)
+        return (ident, x['count']), x['epoch']
+
+      for op, g in zip(ops, got):
+        items = []
+        if op[0] == 'call' and g[0] == 'key':
+          nm = _resolve(streams, op[1])
+          items.append((g[1], nm) + draw(nm, None))
+          st[nm]['count'] += 1
+        elif op[0] == 'split' and g[0] == 'backup':
+          sel = [n for n in streams if op[1] is None or n in op[1]]
+          saved = {}
+          for n in sel:
+            x = st[n]
+            saved[n] = dict(x, count=x['count'] + 1)
+            lin = ('split', x['lin'], x['count'])
+            st[n] = {'lin': ('lane', lin, 0) if op[3] else lin, 'count': 0, 'epoch': x['epoch'], 'shape': None if op[3] else tuple(op[2])}
+          stack.append(saved)
+        elif op[0] == 'restore' and g[0] == 'unit':
+          for n, x in stack.pop().items():
+            st[n] = x
+        elif op[0] == 'reseed' and g[0] == 'unit':
+          for n, v in op[1]:
+            if n in st:
+              n_epoch[0] += 1
+              st[n] = {'lin': ('seed', v), 'count': 0, 'epoch': (n, n_epoch[0]), 'shape': None}
+        elif op[0] == 'lanes' and g[0] == 'lanes':
+          for ci, nm0 in enumerate(op[2]):
+            nm = _resolve(streams, nm0)
+            if st[nm]['shape'] is None:
+              items.append((g[1][0][ci], nm) + draw(nm, None))  # broadcast stream: one key for all lanes, by design
+              if len({lane[ci] for lane in g[1]}) != 1:
+                ctx.violation('nnx-broadcast-stream-differs-between-lanes', f'stream {nm!r} is not split but its key differs between lanes', case)
+                return False
+            else:
+              for li, lane in enumerate(g[1]):
+                items.append((lane[ci], nm) + draw(nm, li))
+            st[nm]['count'] += 1
+        for k, nm, prov, ep in items:
+          for nm0, prov0, ep0 in seen.get(k, []):
+            if prov0 != prov or (nm0 == nm and ep0 == ep):
+              ctx.violation(
+                'nnx-key-reuse',
+                f'key {k} handed out twice in a well-bracketed history: stream {nm0!r} with provenance {prov0} and stream {nm!r} with provenance {prov}', case,
+              )
+              return False
+            ctx.count('excused_duplicates', 'nnx-equal-seed-streams' if nm0 != nm else 'nnx-reseeded-to-same-seed')
+          seen.setdefault(k, []).append((nm, prov, ep))
   if got != want:
     ctx.disagreements_checked += 1
     bad = next((i for i, (x, y) in enumerate(zip(got, want)) if x != y), min(len(got), len(want)))
